@@ -147,3 +147,19 @@ Example C23_nonvacuous :
   run_range 50 8 Closed 126 127 (OTake 4) = Val (VList [126; 127; -128; -127]) /\
   run_listiter 50 [3; 1; 2] (OFindIndex (PGt 5)) = Val (VInt (-1)).
 Proof. repeat split; vm_compute; reflexivity. Qed.
+
+(* the model has no representation boundary: Int is Z, so a range ending exactly on the largest
+   small integer 2^63-1 (where the implementation switches SmallInt -> BigInt) stops there, and an
+   endless range runs across it. The streams tie the implementation to exactly these values. *)
+Example C23_nonvacuous_smallint_boundary :
+  unroll 10 (range_next Z.succ Closed 9223372036854775807) 9223372036854775805
+    = Some ([9223372036854775805; 9223372036854775806; 9223372036854775807], TStop) /\
+  unroll 10 (range_next Z.succ LeftOpen 9223372036854775807) 9223372036854775805
+    = Some ([9223372036854775806; 9223372036854775807], TStop) /\
+  run_range 50 0 Closed 9223372036854775805 9223372036854775807 (OTake 6)
+    = Val (VList [9223372036854775805; 9223372036854775806; 9223372036854775807]) /\
+  run_range 50 0 EndlessClosed 9223372036854775806 0 (OTake 3)
+    = Val (VList [9223372036854775806; 9223372036854775807; 9223372036854775808]) /\
+  relements Closed (-9223372036854775809) (-9223372036854775807)
+    = [-9223372036854775809; -9223372036854775808; -9223372036854775807].
+Proof. repeat split; vm_compute; reflexivity. Qed.
